@@ -154,8 +154,10 @@ func newVJHub(o vjOpts) *vjHub {
 	h.Env = &conf.Config{
 		Logger:        lg,
 		StoreLocation: filepath.Join(h.Dir, "store"),
-		Auth:          &conf.AuthConfig{Middleware: "noop"},
-		RunnerConfig:  &conf.RunnerConfig{PoolIncremental: o.PoolIncr, PoolFull: o.PoolFull, Concurrent: 1},
+		// the hub defaults to a 4 GB block cache whose bookkeeping alone allocates ~290 MB per open store
+		BlockCacheSize: 32 << 20,
+		Auth:           &conf.AuthConfig{Middleware: "noop"},
+		RunnerConfig:   &conf.RunnerConfig{PoolIncremental: o.PoolIncr, PoolFull: o.PoolFull, Concurrent: 1},
 	}
 	_ = os.MkdirAll(h.Env.StoreLocation, 0o755)
 	vjQuiet(func() {
